@@ -62,7 +62,7 @@ package chain
 
 //@ func sumOfFromToBalance
 //@   prop C01, C05
-//@   ensures result1 == nil ==> result0 == $bal[from] + $bal[to]
+//@   ensures result1 == nil ==> result0 == $bal[acct(from)] + $bal[acct(to)]
 //@   modifies nothing
 
 // A transfer moves exactly `amount` from one account to another and touches no other account;
@@ -72,12 +72,12 @@ package chain
 //@   requires c != nil
 //@   modifies $bal
 //@   dead-paths 1 -- MinusCoin cannot fail after the balance check
-//@   ensures[moves-exactly] err == nil && amount > 0 ==> fromClient != toClient && old($bal[fromClient]) >= amount && $bal[fromClient] == old($bal[fromClient]) - amount && $bal[toClient] == old($bal[toClient]) + amount
-//@   ensures[others-untouched] err == nil ==> forall k string :: k != fromClient && k != toClient ==> $bal[k] == old($bal[k])
+//@   ensures[moves-exactly] err == nil && amount > 0 ==> acct(fromClient) != acct(toClient) && old($bal[acct(fromClient)]) >= amount && $bal[acct(fromClient)] == old($bal[acct(fromClient)]) - amount && $bal[acct(toClient)] == old($bal[acct(toClient)]) + amount
+//@   ensures[others-untouched] err == nil ==> forall k string :: k != acct(fromClient) && k != acct(toClient) ==> $bal[k] == old($bal[k])
 //@   ensures[zero-is-noop] amount == 0 ==> err == nil && balUnchanged()
-//@   ensures[no-overdraw] amount > 0 && old($bal[fromClient]) < amount ==> err != nil && balUnchanged()
-//@   ensures[failure] err != nil ==> balUnchanged() || ($bal[fromClient] == old($bal[fromClient]) - amount && (forall k string :: k != fromClient ==> $bal[k] == old($bal[k])))
-//@   ensures[sum-kept] err == nil ==> $bal[fromClient] + $bal[toClient] == old($bal[fromClient]) + old($bal[toClient]) || fromClient == toClient
+//@   ensures[no-overdraw] amount > 0 && old($bal[acct(fromClient)]) < amount ==> err != nil && balUnchanged()
+//@   ensures[failure] err != nil ==> balUnchanged() || ($bal[acct(fromClient)] == old($bal[acct(fromClient)]) - amount && (forall k string :: k != acct(fromClient) ==> $bal[k] == old($bal[k])))
+//@   ensures[sum-kept] err == nil ==> $bal[acct(fromClient)] + $bal[acct(toClient)] == old($bal[acct(fromClient)]) + old($bal[acct(toClient)])
 //@   ensures nonceUnchanged() || err != nil
 //@   ensures[nonces-untouched] forall k string :: $nonce[k] == old($nonce[k])
 
@@ -85,26 +85,26 @@ package chain
 //@   prop C01, C05
 //@   requires c != nil
 //@   modifies $bal
-//@   ensures err == nil && amount > 0 ==> $bal[fromClient] == old($bal[fromClient]) - amount && $bal[toClient] == old($bal[toClient]) + amount
-//@   ensures err == nil ==> forall k string :: k != fromClient && k != toClient ==> $bal[k] == old($bal[k])
+//@   ensures err == nil && amount > 0 ==> $bal[acct(fromClient)] == old($bal[acct(fromClient)]) - amount && $bal[acct(toClient)] == old($bal[acct(toClient)]) + amount
+//@   ensures err == nil ==> forall k string :: k != acct(fromClient) && k != acct(toClient) ==> $bal[k] == old($bal[k])
 //@   ensures[zero-is-noop] err == nil && amount == 0 ==> balUnchanged()
 //@   ensures forall k string :: $nonce[k] == old($nonce[k])
 
 // A transaction's nonce must be exactly one more than the sender's nonce in state.
 //@ func (*Chain).validateNonce
 //@   prop C03
-//@   requires c != nil && $nonce[fromClient] < MaxInt64
-//@   ensures[exact-next] result == nil ==> txnNonce == $nonce[fromClient] + 1
-//@   ensures[reject-others] txnNonce != $nonce[fromClient] + 1 ==> result != nil
+//@   requires c != nil && $nonce[acct(fromClient)] < MaxInt64
+//@   ensures[exact-next] result == nil ==> txnNonce == $nonce[acct(fromClient)] + 1
+//@   ensures[reject-others] txnNonce != $nonce[acct(fromClient)] + 1 ==> result != nil
 //@   ensures balUnchanged() && nonceUnchanged()
 //@   modifies nothing
 
 //@ func (*Chain).incrementNonce
 //@   prop C03
-//@   requires c != nil && $nonce[fromClient] < MaxInt64
+//@   requires c != nil && $nonce[acct(fromClient)] < MaxInt64
 //@   modifies $nonce, $bal
-//@   ensures[plus-one] result1 == nil ==> $nonce[fromClient] == old($nonce[fromClient]) + 1
-//@   ensures result1 == nil ==> forall k string :: k != fromClient ==> $nonce[k] == old($nonce[k])
+//@   ensures[plus-one] result1 == nil ==> $nonce[acct(fromClient)] == old($nonce[acct(fromClient)]) + 1
+//@   ensures result1 == nil ==> forall k string :: k != acct(fromClient) ==> $nonce[k] == old($nonce[k])
 //@   ensures[balance-kept] forall k string :: $bal[k] == old($bal[k])
 //@   ensures result1 != nil ==> nonceUnchanged()
 
@@ -152,13 +152,13 @@ package chain
 // updateState applies one transaction to the block state.
 //@ func (*Chain).updateState
 //@   prop C02, C03, C04, C05
-//@   requires c != nil && b != nil && txn != nil && b.PrevBlock != nil && $blockNonce[txn.ClientID] >= 0 && $blockNonce[txn.ClientID] < MaxInt64
-//@   ensures[nonce-exactly-next] err == nil ==> txn.Nonce == old($blockNonce[txn.ClientID]) + 1
-//@   ensures[nonce-plus-one] err == nil ==> $blockNonce[txn.ClientID] == old($blockNonce[txn.ClientID]) + 1
-//@   ensures[other-nonces-kept] err == nil ==> forall k string :: k != txn.ClientID ==> $blockNonce[k] == old($blockNonce[k])
+//@   requires c != nil && b != nil && txn != nil && b.PrevBlock != nil && $blockNonce[acct(txn.ClientID)] >= 0 && $blockNonce[acct(txn.ClientID)] < MaxInt64
+//@   ensures[nonce-exactly-next] err == nil ==> txn.Nonce == old($blockNonce[acct(txn.ClientID)]) + 1
+//@   ensures[nonce-plus-one] err == nil ==> $blockNonce[acct(txn.ClientID)] == old($blockNonce[acct(txn.ClientID)]) + 1
+//@   ensures[other-nonces-kept] err == nil ==> forall k string :: k != acct(txn.ClientID) ==> $blockNonce[k] == old($blockNonce[k])
 //@   ensures[failure-changes-nothing] err != nil ==> forall k string :: $blockBal[k] == old($blockBal[k]) && $blockNonce[k] == old($blockNonce[k])
 //@   ensures[supply-cap] txn.Value > MAXSUPPLY ==> err != nil
-//@   ensures[wrong-nonce-rejected] txn.Nonce != old($blockNonce[txn.ClientID]) + 1 ==> err != nil
+//@   ensures[wrong-nonce-rejected] txn.Nonce != old($blockNonce[acct(txn.ClientID)]) + 1 ==> err != nil
 // (C02) after a chargeable contract failure (txn.Status set to TxnError = 2, not so on entry) nothing
 // the failed call did is left: the trie that gets merged holds none of its writes, no transfer it
 // queued is applied - only the fee transfer to the miner contract - and its events were replaced
@@ -179,11 +179,11 @@ package chain
 //@   loop 1 invariant forall k string :: $nonce[k] == old($blockNonce[k]) && $blockNonce[k] == old($blockNonce[k]) && $blockBal[k] == old($blockBal[k])
 // (C04) applying the queued transfers lowers the sender's balance by at most the validated total
 //@   loop 1 invariant senderDebit(sctx, len(sctx.transfers)) <= txn.Value + txn.Fee
-//@   loop 1 invariant $bal[txn.ClientID] >= old($blockBal[txn.ClientID]) - senderDebit(sctx, $idx + 1)
-//@   at-call GetSignedTransfers assert[sender-loses-at-most-value-plus-fee] $bal[txn.ClientID] >= old($blockBal[txn.ClientID]) - (txn.Value + txn.Fee)
+//@   loop 1 invariant $bal[acct(txn.ClientID)] >= old($blockBal[acct(txn.ClientID)]) - senderDebit(sctx, $idx + 1)
+//@   at-call GetSignedTransfers assert[sender-loses-at-most-value-plus-fee] $bal[acct(txn.ClientID)] >= old($blockBal[acct(txn.ClientID)]) - (txn.Value + txn.Fee)
 //@   loop 3 header "for _, signedTransfer := range sctx.GetSignedTransfers()"
 //@   loop 3 invariant forall k string :: $nonce[k] == old($blockNonce[k]) && $blockNonce[k] == old($blockNonce[k]) && $blockBal[k] == old($blockBal[k])
-//@   loop 5 invariant forall k string :: $nonce[k] == (k == txn.ClientID ? old($blockNonce[k]) + 1 : old($blockNonce[k])) && $blockNonce[k] == old($blockNonce[k]) && $blockBal[k] == old($blockBal[k])
+//@   loop 5 invariant forall k string :: $nonce[k] == (k == acct(txn.ClientID) ? old($blockNonce[k]) + 1 : old($blockNonce[k])) && $blockNonce[k] == old($blockNonce[k]) && $blockBal[k] == old($blockBal[k])
 
 // ---------------------------------------------------------------- LFB tickets (C41)
 //   curMB(c)     the chain's current magic block
